@@ -63,6 +63,8 @@ class Rule:
                 elif o.xform == "swap":
                     h = o.n // 2
                     parts.append("%s[%d:0] @ %s[%d:%d]" % (name, h - 1, name, o.n - 1, h))
+                elif isinstance(o.xform, tuple):
+                    parts.append("(%s + %s)`%d" % (name, o.xform[1], o.n))
                 else:
                     parts.append(name)
             elif o.kind == "untyped":
@@ -84,13 +86,15 @@ def in_range(ty, n, v):
     return -(1 << (n - 1)) <= v < (1 << n)
 
 
-def encode(rule, vals):
+def encode(rule, vals, addr=None):
     """bits of one instruction, or None when an argument is out of range"""
     out = tc(rule.opcode, rule.opbits)
     for o, v in zip(rule.opds, vals):
         if o.kind == "typed":
             if not in_range(o.ty, o.n, v):
                 return None
+            if isinstance(o.xform, tuple):
+                v = v + (addr or {}).get(o.xform[1], 0)
             b = tc(v, o.n)
             if o.xform == "le":
                 b = "".join(reversed([b[i:i + 8] for i in range(0, len(b), 8)]))
@@ -105,7 +109,7 @@ def encode(rule, vals):
     return out
 
 
-def gen_rules(rng, families=False):
+def gen_rules(rng, families=False, prodref=False):
     n = rng.randrange(3, 10)
     mn = rng.sample(MNEMONICS, min(n, len(MNEMONICS)))
     rules, shapes = [], set()
@@ -152,6 +156,18 @@ def gen_rules(rng, families=False):
                 shapes.add(r2.shape())
                 rules.append(r2)
         typed = [k for k, o in enumerate(r.opds) if o.kind == "typed" and o.xform is None]
+        if prodref and typed and r.family is None and rng.random() < 0.3:
+            # a second rule with the very same pattern whose production mentions a label: both always match,
+            # the sizes are fixed by the rules, the smaller one is selected (equal sizes: ambiguous, an error)
+            k = rng.choice(typed)
+            o = r.opds[k]
+            r.family = len(rules)
+            opds2 = list(r.opds)
+            opds2[k] = Opd("typed", o.ty, o.n, wrap=o.wrap, xform=("plus", rng.choice(["lab0", "lab1"])))
+            ob = r.opbits + rng.choice([8, 8, -8, -8, 0] if r.opbits > 8 else [8, 8, 8, 0])
+            r2 = Rule(r.mnem, opds2, rng.randrange(1 << ob), ob, r.seps, r.family)
+            rules.append(r2)
+            continue
         if families and typed and rng.random() < 0.35:
             # a sibling with the same shape and a wider/narrower type: the smallest admissible encoding wins
             k = rng.choice(typed)
@@ -173,7 +189,9 @@ def family_choice(rules, ri, vals):
     cands = [j for j, q in enumerate(rules) if q.family == r.family and encode(q, vals) is not None]
     if not cands:
         return ri
-    return min(cands, key=lambda j: rules[j].size())
+    best = min(rules[j].size() for j in cands)
+    win = [j for j in cands if rules[j].size() == best]
+    return win[0] if len(win) == 1 else ("ambiguous", win[0])
 
 
 def boundary(rng, o):
@@ -190,10 +208,10 @@ class Prog:
     pass
 
 
-def gen_prog(rng, faults=True, banks=None, families=False):
+def gen_prog(rng, faults=True, banks=None, families=False, prodref=False):
     """structure + expectation; sizes are static, so the layout is computed in one walk"""
     p = Prog()
-    p.rules = gen_rules(rng, families)
+    p.rules = gen_rules(rng, families, prodref)
     p.items = []
     p.fault = None
     if families:
@@ -210,7 +228,16 @@ def gen_prog(rng, faults=True, banks=None, families=False):
     fault_at = rng.randrange(nlines) if want_fault else -1
     cur_glob = None
     nloc = 0
+    p.banks = None
+    if banks:
+        # two banks with disjoint address and output windows; the program may switch between them
+        p.banks = [("ba", 0x100, 0x400, 0), ("bb", 0x8000, 0x400, 8 * 0x400)]
+        p.items.append(["bank", "ba"])
     for i in range(nlines):
+        if banks and rng.random() < 0.12:
+            p.items.append(["bank", rng.choice(["ba", "bb"])])
+        if rng.random() < 0.05:
+            p.items.append(["addrskip", rng.randrange(0, 6)])
         if pending and rng.random() < 0.35:
             cur_glob = pending.pop(0)
             p.items.append(["label", cur_glob])
@@ -232,6 +259,9 @@ def gen_prog(rng, faults=True, banks=None, families=False):
                         v = boundary(rng, o)
                         ops.append((("lit", v), v))
                 ri = family_choice(p.rules, ri, [v for _, v in ops])
+                if isinstance(ri, tuple):
+                    p.fault = p.fault or "ambiguous"
+                    ri = ri[1]
                 p.items.append(["instr", ri, ops])
             else:
                 p.items.append(["instr", ri, None])
@@ -256,10 +286,23 @@ def gen_prog(rng, faults=True, banks=None, families=False):
     # ---- layout (sizes static)
     pos = 0
     addr = {}
+    base = p.banks[0][1] if p.banks else 0
+    bankpos = {}
+    curbank = None
     for it in p.items:
         k = it[0]
-        if k == "label":
-            addr[it[1]] = pos // 8
+        if k == "bank":
+            if curbank is not None:
+                bankpos[curbank] = pos
+            curbank = it[1]
+            pos = bankpos.get(curbank, 0)
+            base = [b for b in p.banks if b[0] == curbank][0][1]
+        elif k == "addrskip":
+            # `#addr A` with A = current address + skip (forward only)
+            it.append(base + pos // 8 + it[1])
+            pos += 8 * it[1]
+        elif k == "label":
+            addr[it[1]] = base + pos // 8
         elif k == "instr":
             pos += p.rules[it[1]].size()
         elif k == "data":
@@ -409,6 +452,9 @@ def render(p, rng=None, case=None, blanks=None, comment=None, rule_order=None, b
     for n, v in REGS:
         out.append("    %s => 0x%x" % (n, v))
     out.append("}")
+    if p.banks:
+        for nm, a, sz, outp in p.banks:
+            out.append("#bankdef %s { #addr 0x%x, #size 0x%x, #outp 0x%x }" % (nm, a, sz, outp))
     for it in p.items:
         k = it[0]
         if k == "label":
@@ -449,6 +495,10 @@ def render(p, rng=None, case=None, blanks=None, comment=None, rule_order=None, b
             out.append("    #res %d" % it[1])
         elif k == "align":
             out.append("    #align %d" % it[1])
+        elif k == "bank":
+            out.append("#bank %s" % it[1])
+        elif k == "addrskip":
+            out.append("    #addr 0x%x" % it[2])
     return "\n".join(out) + "\n"
 
 
@@ -457,22 +507,39 @@ def expected(p):
     if p.fault:
         return ("err", p.fault)
     bits = ""
+    banked = {}
+    cur = None
     for it in p.items:
         k = it[0]
-        if k == "instr":
-            e = encode(p.rules[it[1]], [v for _, v in it[2]])
+        if k == "bank":
+            if cur is not None:
+                banked[cur] = bits
+            cur = it[1]
+            bits = banked.get(cur, "")
+        elif k == "addrskip":
+            bits += "0" * (8 * it[1])
+        elif k == "instr":
+            e = encode(p.rules[it[1]], [v for _, v in it[2]], p.addr)
             if e is None:
                 return ("err", "range")
-            bits += e
+            bits += e + ("|" if p.banks else "")
         elif k == "data":
             for _, v in it[2]:
                 if not in_range("i", it[1], v):
                     return ("err", "range")
-                bits += tc(v, it[1])
+                bits += tc(v, it[1]) + ("|" if p.banks else "")
         elif k == "res":
             bits += "0" * (8 * it[1])
         elif k == "align":
-            bits += "0" * ((-len(bits)) % it[1])
+            bits += "0" * ((-len(bits.replace("|", ""))) % it[1])
+    if p.banks:
+        banked[cur] = bits
+        # reserved space at the end of a bank is not part of the output: cut each bank after its last emitted item
+        def written(x):
+            return x[: x.rfind("|") + 1].replace("|", "") if "|" in x else ""
+        raise_if = None
+        a, b = written(banked.get("ba", "")), written(banked.get("bb", ""))
+        bits = a if not b else a + "0" * (p.banks[1][3] - len(a)) + b
     syms = dict(p.addr)
     for it in p.items:
         if it[0] == "const":
